@@ -129,7 +129,7 @@ prop('C01',
 
 prop('C03',
      modules=['WitnessVerif.Props.C03'],
-     scenarios=lambda tier: hist_scenarios(tier) + [sc('notemut'), sc('fault')],
+     scenarios=lambda tier: hist_scenarios(tier) + [sc('notemut'), sc('fault'), sc('conc')],
      diverge={'U': {'accept', 'ret', 'post', 'oracle'}},
      nontrivial=lambda u: u.get('err') != 'none',
      rule='every refused Update of the history/exhaustive/mutation scenarios: state of every configured log and the log list are read before and after (digest), returned bytes compared with the stored checkpoint; non-trivial = the request was refused; histogram lists the refusal classes hit',
@@ -188,7 +188,7 @@ prop('C05',
      scenarios=lambda tier: [sc('conc'), sc('concfree', race=1)],
      diverge={'U': {'accept', 'post'}, 'LIN': {'smallstep'}},
      nontrivial_line=lambda k, line: k == 'LIN',
-     rule='controlled schedules on ONE shared Witness (as in production): every request is parked before it starts, before each storage call and after each storage read (wrapper around LogStatePersistence) and released by a scheduler; depth-first enumeration of interleavings of 2 and 3 requests (bounded), the one-preemption family (a request runs to its k-th yield point, the others run to completion in every order, it finishes) and random schedules for conflicting first use, first-use fork, forks from the same old size, growth vs refresh, growth vs growth, different logs, update vs read, on the in-memory store and on file-backed SQLite through database/sql with the production pool size (blocked Begin = thread in flight); plus free-running rounds of 6-9 goroutines, also from a build with the Go race detector (any report is a violation); on the in-memory store the small-step model of the storage protocol (Model/StoreProtocol.lean, the system of theorem C05_linearizable_inmem) is replayed on the schedule that actually ran and must predict every request outcome and the final value; on SQLite the single-connection system of theorem C05_linearizable_sql (Lin.stepSql) is replayed on the scheduler-released events (a request owns the connection from its read inside the transaction to its Set/Close; a second reader inside a transaction while the first still owns it is a divergence) and must predict the same; monitor: a sequential order compatible with real time exists in which the model of the sequential witness gives every request its outcome (storage errors only for overlapping writes, no effect), final state = replayed state; non-trivial = one LIN record per execution',
+     rule='controlled schedules on ONE shared Witness (as in production): every request is parked before it starts, before each storage call and after each storage read (wrapper around LogStatePersistence) and released by a scheduler; depth-first enumeration of interleavings of 2 and 3 requests (bounded), the one-preemption family (a request runs to its k-th yield point, the others run to completion in every order, it finishes) and random schedules for conflicting first use, first-use fork, forks from the same old size, growth vs refresh, growth vs growth, different logs, update vs read, on the in-memory store and on file-backed SQLite through database/sql with the production pool size (blocked Begin = thread in flight); every other execution goes through ONE witnessAdapter as omniwitness.Main uses it (its view of every log is compared with storage afterwards), and the list of known logs is read with multiplicity after every execution; plus free-running rounds of 6-9 goroutines, also from a build with the Go race detector (any report is a violation); on the in-memory store the small-step model of the storage protocol (Model/StoreProtocol.lean, the system of theorem C05_linearizable_inmem) is replayed on the schedule that actually ran and must predict every request outcome and the final value; on SQLite the single-connection system of theorem C05_linearizable_sql (Lin.stepSql) is replayed on the scheduler-released events (a request owns the connection from its read inside the transaction to its Set/Close; a second reader inside a transaction while the first still owns it is a divergence) and must predict the same; monitor: a sequential order compatible with real time exists in which the model of the sequential witness gives every request its outcome (storage errors only for overlapping writes, no effect), final state = replayed state; non-trivial = one LIN record per execution',
      assumptions=['atomicity of a single storage call (Go mutex / SQLite locking) and the Go memory model are runtime facts, exercised only'],
      exhaustive=True)
 
@@ -210,7 +210,7 @@ prop('C08',
 
 prop('C13',
      modules=['WitnessVerif.Props.C13'],
-     scenarios=lambda tier: [sc('feeder')],
+     scenarios=lambda tier: [sc('feeder'), sc('conc')],
      diverge={'FD': None},
      nontrivial_line=lambda k, line: k == 'FD',
      rule='feeder.FeedOnce against a scripted witness (recording stub, and the real witness behind the real witnessAdapter) for all (witness size, log size) in -1..N x 0..N (N=6 quick, 12 thorough), honest and forked log, all patterns of up to 2 (quick) / 4 (thorough) transient failures over get-latest / fetch-proof / update, unverifiable checkpoints (other key, other origin), a witness that answers get-latest with bytes that are not this log\'s checkpoint (other key, other origin, cut short, garbage), witness ahead, context end; the sequence of calls (arguments, order) and the result compared with the model given the answers actually received; monitors check each Update against the latest checkpoint reported in the same attempt',
@@ -244,7 +244,7 @@ prop('C12',
 
 prop('C16',
      modules=['WitnessVerif.Props.C16'],
-     scenarios=lambda tier: [sc('httpapi')] * (2 if tier == 'quick' else 8),
+     scenarios=lambda tier: [sc('httpapi')] * (2 if tier == 'quick' else 8) + [sc('conc')],
      diverge={'A': None, 'U': {'accept', 'post'}},
      nontrivial_line=lambda k, line: k == 'A',
      rule='histories of accepted and refused updates over 1..4 logs (IDs from log.ID) on in-memory, SQLite :memory: and SQLite file stores; after steps, GET checkpoint through the registered gorilla/mux handlers (httptest server) and through the bundled client for every known ID and for unknown / odd IDs (upper case, truncated, extended, -, _, ., %2F, empty, .., 200 characters, %00, non-ASCII, spaces), GET logs decoded and sorted; whenever the service hands out an ETag or Last-Modified a later probe revalidates with it (304 only while the stored bytes are unchanged); a quarter of the probes run while the store fails Logs / ReadOps / GetLatest, or (SQLite through the wrapping database/sql driver) while Query or the first, second or third Rows.Next fails (an error status is the only truthful answer: never 404, never \'does not exist\', never a 200 list that is not the stored set); compared with the model and the monitors 200 => that log holds exactly these bytes, else 404, client maps 404 to ErrNotExist')
